@@ -668,6 +668,45 @@ FINE = [
 ]
 
 
+def pool_tie(run, binp, quick):
+    """library-level tie of the pool cache: real PreparedStatementCache::{new, get_or_insert, promote} + Parse::rewrite's
+    counter vs Cache.pool_get_or_insert / ppromote (sizes 0 (=1), 1, 2, 3, 8; get/promote sequences over few statements)."""
+    rng = run.rng
+    cases = []
+    for _ in range(60 if quick else 1500):
+        size = rng.choice([0, 1, 1, 2, 2, 3, 8])
+        steps = [("get" if rng.random() < 0.75 else "promote", rng.choice([10, 11, 12, 13, 14])) for _ in range(rng.choice([3, 6, 12, 25]))]
+        cases.append((size, steps))
+    ops = []
+    for size, steps in cases:
+        ops.append({"op": "poolcache", "size": size,
+                    "steps": [{k: L.parse_msg(b"n%d" % i, stmt_sql(st)[0].encode(), stmt_sql(st)[1]).hex()} for i, (k, st) in enumerate(steps)]})
+    real = [L.run_codec(binp, [o])[0] for o in ops]          # one process each would reset the counter; names are canonicalised instead
+    exprs = ["pool_run (Kgen %d 1) world0 [%s]" % (size, "; ".join(("PGet %d" if k == "get" else "PProm %d") % st for k, st in steps)) for size, steps in cases]
+    vals = [vlib.parse_coq(v) for v in L.coq_eval("c08pool", PRE2, exprs)]
+    n = 0
+    for (size, steps), o, mv in zip(cases, real, vals):
+        n += 1
+        seen = {}
+        got = []
+        for x in o["names"]:
+            if x is None:
+                got.append(None)
+            else:
+                if not x["name"].startswith("PGCAT_") or not x["same_hash"]:
+                    run.violation("counterexample", "pool cache returned a statement with another hash or an unexpected name", {"input": {"size": size, "steps": steps}, "impl": o})
+                    return n
+                got.append(seen.setdefault(x["name"], len(seen)))
+        seen2 = {}
+        want = [None if x is None else seen2.setdefault(x[1], len(seen2)) for x in mv]
+        if got != want:
+            run.violation("tie-broken", "pool cache (PreparedStatementCache::get_or_insert/promote) differs from the model: size %d steps %s: impl %s model %s" % (size, steps, got, want),
+                          {"correspondence": "Cache.pool_get_or_insert vs pool.rs PreparedStatementCache", "input": {"size": size, "steps": steps}, "impl": got, "model": want})
+            return n
+        run.cov["traces_validated_against_impl"] += 1
+    return n
+
+
 def layer2(run, quick):
     """model-level checks (no implementation involved yet): the refinement theorem sampled on generated programs, the witness
     scenarios, and the JSON predictions a wire harness will be compared against."""
@@ -781,8 +820,10 @@ def check(run):
     if not run.violations:
         okc, logc = vlib.coq_make(["Prep/CacheObs.vo"])
         if okc:
+            npool = pool_tie(run, bins["codec"], quick)
             l2, wire = layer2(run, quick)
-            evals += l2.get("programs", 0) + len(wire)
+            l2["pool_cache_sequences_tied_to_impl"] = npool
+            evals += l2.get("programs", 0) + len(wire) + npool
             run.log("layer 2 (model vs direct-connection spec): %s" % l2)
         else:
             run.broken.append("coq/Prep/CacheObs.v does not compile: " + logc[-300:])
